@@ -380,4 +380,27 @@ theorem aggLoop_fuel (pad : Bool) (f1 f2 : Nat) (payload : Bytes) (acc : List By
             · apply ih <;> simp only [List.length_drop, List.length_cons] at * <;> omega
       · rfl
 
+/-! ### `pushFrag` -/
+
+theorem pushFrag_flatten (fs : List Bytes) (data : Bytes) : (pushFrag fs data).flatten = fs.flatten ++ data := by
+  unfold pushFrag
+  split
+  · rename_i h; simp [List.length_eq_zero_iff.mp h]
+  · simp
+
+theorem pushFrag_totalLen (fs : List Bytes) (data : Bytes) :
+    totalLen (pushFrag fs data) = totalLen fs + data.length := by
+  unfold pushFrag
+  split
+  · rename_i h; simp [h]
+  · simp
+
+/-- an empty fragment is not stored; a stored one accounts for at least one byte -/
+theorem pushFrag_length (fs : List Bytes) (data : Bytes) :
+    (pushFrag fs data).length ≤ fs.length + data.length ∧ (pushFrag fs data).length ≤ fs.length + 1 := by
+  unfold pushFrag
+  split
+  · simp
+  · rename_i h; simp; omega
+
 end Rtsp.Codec.H26x
